@@ -42,6 +42,10 @@ CLAIMS["C15"] = ("other", "who-may-write + value-shape (provenance) matching of 
   "Decides that the published deadline is written only as now+action time, zero, or old+seconds (returned unchanged by the extension), and that the clearing hook is wired to round close and to the between-hands reset. It does not decide the predicate that says when a turn publishes a deadline.",
   "DESIGN.md §4 C15", TRUST)
 
+CLAIMS["C07"] = ("other", "who-may-write with mechanism-tied contexts for every status constant; guard dominance (hand-state nil, closed/released, blind guards); lockset; must-store set of the per-hand reset; ordering by dominance",
+  "Decides the structural backbone of the life cycle for every path: each status constant is written only in the context implementing its transition, one +1 counter increment on the clone behind the blind guards, the open step only under 'no hand state' and the engine mutex, a complete per-hand reset, closed/released tests before pause, set-up and open. One genuine open-after-close defect was repaired (fix: commit). Timing of the asynchronous trigger and game-id freshness are not decided.",
+  "DESIGN.md §4 C07, §5 F6", TRUST)
+
 REASONS = {}
 
 checks = []
